@@ -48,7 +48,9 @@ def snapshot(zdir: Path, *, with_meta: bool = True) -> dict[str, str]:
         if rel.startswith(".zorg/"):
             if not with_meta or not rel.endswith((".json", ".txt")):
                 continue
-        out[rel] = p.read_text(errors="surrogateescape")
+        # byte-exact: no universal-newline translation of \r\n or a lone \r
+        with p.open("r", newline="", errors="surrogateescape") as f:
+            out[rel] = f.read()
     return out
 
 
@@ -56,7 +58,8 @@ def restore(zdir: Path, snap: dict[str, str]) -> None:
     for rel, text in snap.items():
         p = zdir / rel
         p.parent.mkdir(parents=True, exist_ok=True)
-        p.write_text(text, errors="surrogateescape")
+        with p.open("w", newline="", errors="surrogateescape") as f:
+            f.write(text)
 
 
 def db_create(zdir: Path, day: dt.date, *, force: bool = False) -> H.ChildResult:
